@@ -641,13 +641,13 @@ pub fn run_property<P: Property>(p: &P, cfg: &RunCfg) -> anyhow::Result<RunRepor
 }
 
 /// two harnesses reporting under one property: add up
-pub fn merge_reports(mut a: RunReport, b: RunReport) -> RunReport {
+pub fn merge_reports(mut a: RunReport, b: RunReport, tag: &str) -> RunReport {
     a.cases_skipped_for_time += b.cases_skipped_for_time;
     a.evaluations += b.evaluations;
     a.distinct_nontrivial += b.distinct_nontrivial;
-    a.rule = format!("{} || ACTOR PATH: {}", a.rule, b.rule);
+    a.rule = format!("{} || {} PATH: {}", a.rule, tag.to_uppercase(), b.rule);
     for (k, v) in b.features {
-        *a.features.entry(format!("actor:{k}")).or_insert(0) += v;
+        *a.features.entry(format!("{tag}:{k}")).or_insert(0) += v;
     }
     a.samples.extend(b.samples.into_iter().take(1));
     a.model_lines_compared += b.model_lines_compared;
